@@ -87,69 +87,127 @@ func init() {
 		w.P("/-- connection.go, u_connection.go: the `ActiveConnectionIDLimit:` fields of the endpoint's own transport parameters -/")
 		w.P("def advertisedLimitCallSites : List Int := [%s]", strings.Join(adv, ", "))
 
-		// 2. the bound enforced by connIDManager.Add: `len(h.queue) >= <expr>`
+		// 2. the bound enforced by connIDManager.Add: `[uint64(]len(h.queue)[)] >= max(<const>, h.connIDLimit)`
 		mf, err := parse("conn_id_manager.go")
 		if err != nil {
 			return err
 		}
-		var bound, boundOp string
-		var noop *bool
-		for _, d := range mf.Decls {
-			fd, ok := d.(*ast.FuncDecl)
-			if !ok || fd.Recv == nil || fd.Body == nil {
-				continue
-			}
-			if fd.Name.Name == "Add" {
-				var ierr error
-				ast.Inspect(fd.Body, func(nd ast.Node) bool {
-					be, ok := nd.(*ast.BinaryExpr)
-					if !ok {
-						return true
-					}
-					if ce, ok := be.X.(*ast.CallExpr); ok {
-						if id, ok := ce.Fun.(*ast.Ident); ok && id.Name == "len" && len(ce.Args) == 1 {
-							if se, ok := ce.Args[0].(*ast.SelectorExpr); ok && se.Sel.Name == "queue" {
-								v, err := evalInt(be.Y)
-								if err != nil {
-									ierr = err
-									return false
-								}
-								bound, boundOp = v, be.Op.String()
-							}
-						}
-					}
-					return true
-				})
-				if ierr != nil {
-					return ierr
+		isLenQueue := func(e ast.Expr) bool {
+			if ce, ok := e.(*ast.CallExpr); ok { // uint64(len(h.queue))
+				if id, ok := ce.Fun.(*ast.Ident); ok && id.Name == "uint64" && len(ce.Args) == 1 {
+					e = ce.Args[0]
 				}
 			}
+			ce, ok := e.(*ast.CallExpr)
+			if !ok {
+				return false
+			}
+			id, ok := ce.Fun.(*ast.Ident)
+			if !ok || id.Name != "len" || len(ce.Args) != 1 {
+				return false
+			}
+			se, ok := ce.Args[0].(*ast.SelectorExpr)
+			return ok && se.Sel.Name == "queue"
 		}
-		if bound == "" {
+		var bound, boundOp string
+		usesLimit := false
+		found := false
+		for _, d := range mf.Decls {
+			fd, ok := d.(*ast.FuncDecl)
+			if !ok || fd.Recv == nil || fd.Body == nil || fd.Name.Name != "Add" {
+				continue
+			}
+			var ierr error
+			ast.Inspect(fd.Body, func(nd ast.Node) bool {
+				be, ok := nd.(*ast.BinaryExpr)
+				if !ok || !isLenQueue(be.X) {
+					return true
+				}
+				found = true
+				boundOp = be.Op.String()
+				y := be.Y
+				if ce, ok := y.(*ast.CallExpr); ok {
+					if id, ok := ce.Fun.(*ast.Ident); ok && id.Name == "max" && len(ce.Args) == 2 {
+						if se, ok := ce.Args[1].(*ast.SelectorExpr); ok && se.Sel.Name == "connIDLimit" {
+							usesLimit = true
+							y = ce.Args[0]
+						} else {
+							ierr = fmt.Errorf("conn_id_manager.go: Add compares with max(…) of an unexpected shape")
+							return false
+						}
+					}
+				}
+				v, err := evalInt(y)
+				if err != nil {
+					ierr = err
+					return false
+				}
+				bound = v
+				return true
+			})
+			if ierr != nil {
+				return ierr
+			}
+		}
+		if !found || bound == "" {
 			return fmt.Errorf("conn_id_manager.go: the queue-length comparison of connIDManager.Add was not found")
 		}
 		if boundOp != ">=" {
 			return fmt.Errorf("conn_id_manager.go: connIDManager.Add compares len(h.queue) with %q, the model assumes >=", boundOp)
 		}
-		w.P("/-- conn_id_manager.go `Add`: CONNECTION_ID_LIMIT_ERROR when `len(h.queue) >= enforcedQueueBound` -/")
+		w.P("/-- conn_id_manager.go `Add`: CONNECTION_ID_LIMIT_ERROR when `len(h.queue) >= max(enforcedQueueBound, h.connIDLimit)` -/")
 		w.P("def enforcedQueueBound : Int := %s", bound)
+		w.P("/-- conn_id_manager.go `Add`: the bound is `max(<const>, h.connIDLimit)` (false: the constant alone) -/")
+		w.P("def enforcedBoundUsesConnIDLimit : Bool := %v", usesLimit)
 
-		// 3. SetConnectionIDLimit (u_conn_id_manager.go) has an empty body
+		// 3. SetConnectionIDLimit (u_conn_id_manager.go) stores its argument in h.connIDLimit
 		uf, err := parse("u_conn_id_manager.go")
 		if err != nil {
 			return err
 		}
+		var stores *bool
 		for _, d := range uf.Decls {
-			if fd, ok := d.(*ast.FuncDecl); ok && fd.Name.Name == "SetConnectionIDLimit" && fd.Body != nil {
-				b := len(fd.Body.List) == 0
-				noop = &b
+			fd, ok := d.(*ast.FuncDecl)
+			if !ok || fd.Name.Name != "SetConnectionIDLimit" || fd.Body == nil {
+				continue
 			}
+			b := false
+			if len(fd.Body.List) == 1 && fd.Type.Params != nil && len(fd.Type.Params.List) == 1 && len(fd.Type.Params.List[0].Names) == 1 {
+				param := fd.Type.Params.List[0].Names[0].Name
+				if as, ok := fd.Body.List[0].(*ast.AssignStmt); ok && as.Tok == token.ASSIGN && len(as.Lhs) == 1 && len(as.Rhs) == 1 {
+					l, lok := as.Lhs[0].(*ast.SelectorExpr)
+					r, rok := as.Rhs[0].(*ast.Ident)
+					b = lok && rok && l.Sel.Name == "connIDLimit" && r.Name == param
+				}
+			}
+			stores = &b
 		}
-		if noop == nil {
+		if stores == nil {
 			return fmt.Errorf("u_conn_id_manager.go: SetConnectionIDLimit not found")
 		}
-		w.P("/-- u_conn_id_manager.go: `SetConnectionIDLimit` has an empty body (the spec's limit is not enforced) -/")
-		w.P("def setConnectionIDLimitIsNoop : Bool := %v", *noop)
+		w.P("/-- u_conn_id_manager.go: the body of `SetConnectionIDLimit(limit)` is exactly `h.connIDLimit = limit` -/")
+		w.P("def setConnectionIDLimitStores : Bool := %v", *stores)
+
+		// 3b. newUClientConnection passes the spec's populated value: `SetConnectionIDLimit(params.ActiveConnectionIDLimit)`
+		ucf, err := parse("u_connection.go")
+		if err != nil {
+			return err
+		}
+		passes := false
+		ast.Inspect(ucf, func(nd ast.Node) bool {
+			ce, ok := nd.(*ast.CallExpr)
+			if !ok {
+				return true
+			}
+			if se, ok := ce.Fun.(*ast.SelectorExpr); ok && se.Sel.Name == "SetConnectionIDLimit" && len(ce.Args) == 1 {
+				if a, ok := ce.Args[0].(*ast.SelectorExpr); ok && a.Sel.Name == "ActiveConnectionIDLimit" {
+					passes = true
+				}
+			}
+			return true
+		})
+		w.P("/-- u_connection.go: the spec-driven client calls `SetConnectionIDLimit(params.ActiveConnectionIDLimit)` -/")
+		w.P("def specClientSetsConnIDLimit : Bool := %v", passes)
 
 		// 4. active_connection_id_limit values of the built-in parrot specs: `tls.ActiveConnectionIDLimit(<lit>)` in u_parrot.go
 		pf, err := parse("u_parrot.go")
